@@ -30,7 +30,7 @@ def main():
     out = f"/tmp/seed_{pid}_out" + ("" if rnd == 1 else str(rnd))
     wt = f"/tmp/seed_{pid}"
     meta = json.load(open(f"{out}/meta.json"))
-    assert sh("git status --porcelain", cwd="/repo")[1].strip() == "", "/repo is dirty"
+    assert "--confirm-only" in sys.argv or sh("git status --porcelain", cwd="/repo")[1].strip() == "", "/repo is dirty"
     for n, ch in enumerate(meta["changes"], 1):
         name = f"{pid}-{n + 2 * (rnd - 1)}"
         dst = f"{ROOT}/seeded/{name}"
@@ -64,6 +64,12 @@ def main():
             res["suite_with_patch"] = os_.strip().splitlines()[0] if os_.strip() else f"rc={rcs}"
             res["confirmed"] = bool(rc0 == 0 and rc1 != 0 and rcs == 0)
         sh("git checkout -- . && git clean -fdq", cwd=wt)
+        if "--confirm-only" in sys.argv:
+            if os.path.exists(f"{dst}/meta.json"):
+                res["checks"] = json.load(open(f"{dst}/meta.json")).get("checks", {})
+            json.dump(res, open(f"{dst}/meta.json", "w"), indent=1)
+            print(name, "confirmed=", res.get("confirmed"), "|", (ch.get("summary") or "")[:110])
+            continue
         # evaluate the checks on /repo
         rca, o = sh(f"git apply {patch}", cwd="/repo")
         res["checks"] = {}
